@@ -497,9 +497,12 @@ package transaction
 //@   modifies-also twoPhaseCommitter.maxTSCalc of c
 //@   ensures result == nil ==> c.maxTSCalc
 
+// (C03:) a failed prewrite is passed on as a definite failure only when no undetermined mark was recorded (otherwise
+// "undetermined" is answered at once).
 //@ func (*twoPhaseCommitter) execute
-//@   prop C04
+//@   prop C04 C03
 //@   may-panic
+//@   at call(GetTotalSleep#1) assert determinate: err != nil ==> c.mu.undeterminedErr == nil
 //@   at call(prewriteMutations) assert calculated: old(c.useAsyncCommit == 0 && c.useOnePC == 0) && (c.useAsyncCommit > 0 || c.useOnePC > 0) ==> c.maxTSCalc
 //@   opaque-callee cleanup prewriteMutations checkSchemaOnAssertionFail stripNoNeedCommitKeys GetTimestampForCommit checkSchemaValid fillCommitTSLagDetails commitFlushedMutations checkOnePC checkAsyncCommit needLinearizability getDetail pipelinedCancel primary shouldWriteBinlog spawn NewBackofferWithVars IsExpired GetOracle GetTimestampWithRetry updateMaxCommitTs getTimestampWithRetry GetMemBuffer Prewrite Skipped GetError
 //@   at call(commitTxn) assert above: c.commitTS > c.startTS
